@@ -280,8 +280,139 @@ def body_page_decoder(ctx, case):
         ctx.nontrivial(("pd", tuple(tab), tuple(map(tuple, paths)), k, scale, seed))
 
 
+# ---------------------------------------------------------------- the state carried from line to line
+def strat_carry():
+    from hypothesis import strategies as st
+
+    @st.composite
+    def case(draw):
+        C = draw(st.integers(3, 5))
+        n = draw(st.integers(2, 7))
+        lines = []
+        for _ in range(n):
+            kind = draw(st.sampled_from(["ok", "ok", "ok", "ok", "no_logits", "no_frames", "sure"]))
+            lines.append((kind, draw(st.lists(st.integers(0, C - 1), min_size=1, max_size=6))))
+        return (C, lines, draw(st.sampled_from([1, 3, 10])), draw(st.sampled_from([0.5, 1.0, 2.0])), draw(st.integers(0, 10 ** 6)),
+                draw(st.sampled_from([None, None, 0.9])))
+    return case()
+
+
+class SpyDecoder:
+    """forwards to the real decoder and records the start state every call was given"""
+
+    def __init__(self, dec):
+        self.dec = dec
+        self._lm = dec._lm
+        self.seen = []
+
+    def __call__(self, logits, **kw):
+        h = kw.get("init_h")
+        self.seen.append(None if h is None else list(h.p))
+        return self.dec(logits, **kw)
+
+
+def body_carry(ctx, case):
+    """PageDecoder with carry_h_over: the start state handed to the decoder for a line is the state the decoder returned for
+    the previous decoded line of the page (best hypothesis, line end added) - also when lines in between could not be decoded
+    (no logits, no frames) -, the page's first line starts from the LM's initial state, and the line after a line that was
+    confident enough to be skipped starts from the LM primed with that line's text. The stored transcription is the best
+    hypothesis of an identically configured decoder started from that state."""
+    from pero_ocr.core.layout import PageLayout, RegionLayout, TextLine
+    from pero_ocr.decoding.decoders import CTCPrefixLogRawNumpyDecoder, BLANK_SYMBOL
+    from pero_ocr.document_ocr.page_parser import PageDecoder
+    from scipy import sparse
+    from vlib.pages import sparsify
+    C, lines, k, scale, seed, thr = case
+    tab = LETTERS[:C - 1]
+    letters = tab + [BLANK_SYMBOL]
+    rs = np.random.RandomState(seed)
+
+    def make_decoder():
+        return CTCPrefixLogRawNumpyDecoder(letters, k, lm=HashLM(seed, C - 1), lm_scale=scale)
+    page = PageLayout(id="p", page_size=(200, 400))
+    reg = RegionLayout("r", np.asarray([[0, 0], [400, 0], [400, 200], [0, 200]], dtype=np.float64))
+    dense_of = {}
+    for i, (kind, p) in enumerate(lines):
+        line = TextLine(id="l%d" % i, baseline=np.asarray([[5.0, 20.0 * i + 10], [300.0, 20.0 * i + 10]]),
+                        polygon=np.asarray([[5.0, 20.0 * i], [300.0, 20.0 * i], [300.0, 20.0 * i + 14], [5.0, 20.0 * i + 14]]), heights=[10.0, 4.0])
+        line.characters = list(tab) + ["\u200b"]
+        line.transcription = "prior%d" % i
+        if kind == "no_logits":
+            line.logits = None
+            line.logit_coords = [None, None]
+        elif kind == "no_frames":
+            line.logits = sparse.csc_matrix(np.zeros((0, C), dtype=np.float32))
+            line.logit_coords = [0, 0]
+        else:
+            dense = rs.uniform(-3, 0, size=(len(p), C))
+            for t, c in enumerate(p):
+                dense[t, c] = rs.uniform(14, 16) if kind == "sure" else rs.uniform(0.5, 3)      # 'ok' lines are ambiguous: the LM matters
+            line.logits = sparsify(dense)
+            line.logit_coords = [0, len(p)]
+            dense_of[i] = line.get_full_logprobs()
+        reg.lines.append(line)
+    page.regions = [reg]
+    spy = SpyDecoder(make_decoder())
+    pd = PageDecoder(spy, line_confidence_threshold=thr, carry_h_over=True)
+    import logging
+    logging.disable(logging.CRITICAL)
+    try:
+        ctx.must("page_decoder_raises", pd.process_page, page)
+    finally:
+        logging.disable(logging.NOTSET)
+    # the model
+    ref = make_decoder()
+    last_h, last_line = None, None
+    want_seen, want_text = [], []
+    for i, (kind, p) in enumerate(lines):
+        prior = "prior%d" % i
+        if kind == "no_logits":
+            want_text.append(prior)
+            continue
+        if kind == "no_frames" and thr is not None:
+            want_text.append(prior)         # the confident-line test itself fails on a line without frames: nothing changes
+            continue
+        if kind != "no_frames" and thr is not None:
+            lp = dense_of[i]
+            worst = float(np.exp(lp.max(axis=1).min()))
+            if abs(worst - thr) < 1e-6:
+                ctx.event("at_threshold_skipped")
+                return
+            if worst > thr:
+                last_h, last_line = None, prior
+                want_text.append(prior)
+                continue
+        if last_h is None and last_line:
+            last_h = [("line", str(last_line))]
+        want_seen.append(None if last_h is None else list(last_h))
+        if kind == "no_frames":
+            want_text.append(prior)
+            continue
+        init = None if last_h is None else ref._lm.state_after(last_h[0])
+        boh, h_ret = ctx.must("decoder_raises", ref, dense_of[i].copy(), return_h=True, init_h=init)
+        best = boh.best_hyp()
+        want_text.append(best)
+        last_h = [tuple(h_ret.p[0]) + ("nl",)]
+        last_line = best
+    desc = lambda: "C=%d lines=%r k=%d scale=%r seed=%d threshold=%r" % (C, lines, k, scale, seed, thr)
+    ctx.check(spy.seen == want_seen, "state_carried_to_the_next_line_is_not_the_returned_state",
+              lambda: "start states handed to the decoder %r, expected %r; " % (spy.seen, want_seen) + desc())
+    got = [l.transcription for l in reg.lines]
+    ctx.check(got == want_text, "line_not_decoded_from_the_carried_state",
+              lambda: "stored %r expected %r; " % (got, want_text) + desc())
+    kinds = [k_ for k_, _ in lines]
+    decoded = [j for j, k_ in enumerate(kinds) if k_ in ("ok", "sure")]
+    failing = [j for j, k_ in enumerate(kinds) if k_ in ("no_logits", "no_frames")]
+    if any(a < f < b for f in failing for a in decoded[1:] for b in decoded):
+        ctx.event("undecodable_line_between_decoded_lines")
+        ctx.nontrivial(("carry", C, tuple((k_, tuple(p_)) for k_, p_ in lines), k, scale, seed, thr))
+    elif len(decoded) >= 3:
+        ctx.nontrivial(("carry", C, tuple((k_, tuple(p_)) for k_, p_ in lines), k, scale, seed, thr))
+
+
 UNITS = [
     Unit("hashlm", "given", body=body, strategy=strat("hash"), quick=3000, thorough=40000, render=render_case),
     Unit("lstmlm", "given", body=body, strategy=strat("lstm"), quick=600, thorough=3000, render=render_case),
     Unit("page_decoder", "given", body=body_page_decoder, strategy=strat_page_decoder, quick=400, thorough=6000),
+    Unit("carry_over", "given", body=body_carry, strategy=strat_carry, quick=400, thorough=6000),
 ]
